@@ -140,6 +140,12 @@ def _check_is_ascii(value: str) -> bool:
     return True
 
 
+def _check_arch_index(arch_index: Optional[int]) -> None:
+    """Archive indexes are stored as 16 bits, and DIR_ARCH_INDEX is reserved for the directory itself."""
+    if arch_index is not None and not (0 <= arch_index < DIR_ARCH_INDEX):
+        raise ValueError(f'VPK archive index {arch_index!r} must be None or in range 0-{DIR_ARCH_INDEX - 1}!')
+
+
 @attrs.define(eq=False, repr=False)
 class FileInfo:
     """Represents a file stored inside a VPK.
@@ -215,6 +221,9 @@ class FileInfo:
         """
         if not self.vpk.mode.writable:
             raise ValueError(f"VPK mode {self.vpk.mode.name} does not allow writing!")
+        # noinspection PyProtectedMember
+        if self.vpk._dir_prefix is not None:
+            _check_arch_index(arch_index)
         # Split the file based on a certain limit.
 
         new_checksum = checksum(data)
@@ -736,6 +745,10 @@ class VPK:
 
         FileExistsError will be raised if the file is already present.
         """
+        self._check_writable()
+        if self._dir_prefix is not None:
+            # Check now, so a bad index doesn't leave an empty file behind.
+            _check_arch_index(arch_index)
         self.new_file(filename, root).write(data, arch_index)
 
     def add_folder(self, folder: str, prefix: str = '') -> None:
